@@ -198,10 +198,11 @@ Debug ==
     /\ IsEvent("debug")
     /\ LET e == Rec[tpos] IN
        IF e.outcome = "absent" THEN UNCHANGED names       \* the type has no Debug impl (compile-time fact)
-       ELSE /\ e.outcome = "ok"
+       ELSE LET k == <<e.type, IF "spec" \in DOMAIN e THEN e.spec ELSE "{:?}">> IN   \* one text per type and format spec
+            /\ e.outcome = "ok"
             /\ NameOk(e.type, e.text, DebugTokens)
-            /\ IF e.type \in DOMAIN names THEN names[e.type] = e.text /\ UNCHANGED names
-               ELSE names' = Put(names, e.type, e.text)
+            /\ IF k \in DOMAIN names THEN names[k] = e.text /\ UNCHANGED names
+               ELSE names' = Put(names, k, e.text)
     /\ UNCHANGED <<inst, perm, lanes, seen1, zimgs>>
 
 AlgName ==
